@@ -24,6 +24,14 @@ def check(run):
     run.prove(extra_targets=engine.TARGETS)
     nproj = 40 if run.tier == "quick" else 700
     base = engine.gen_cases(run, nproj, profile=PROFILE, threads=(1,), prefix="q")
+    # directed projects: the tests of one suite (and of a sub-suite) all use the same test-scoped fixtures
+    for k in range(3 if run.tier == "quick" else 30):
+        fx = [{"name": "f5", "scope": "test", "params": [], "per_thread": False, "generator": True, "setup": [["log", 1, 1], ["mark", 2]], "teardown": [["log", 1, 3]]}]
+        mk = lambda n, i: {"name": n, "disabled": False, "rank": i, "deps": [], "args": ["f5"], "params": {}, "body": [["mark", 4], ["log", 1, 5], ["use", "f5"]]}
+        sub = {"name": "s7", "disabled": False, "rank": 0, "hooks": dict(_NOHOOKS), "injected": [], "tests": [mk("t%d" % (20 + i), i) for i in range(2)], "subs": []}
+        top = {"name": "s6", "disabled": False, "rank": 0, "hooks": dict(_NOHOOKS), "injected": [], "tests": [mk("t%d" % (10 + i), i) for i in range(3 + k)], "subs": [sub]}
+        base.append({"id": "qs%d" % k, "project": {"fixtures": fx, "suites": [top]}, "sched": [],
+                     "options": {"nb_threads": 1, "stop_on_failure": False, "force_disabled": False}})
     cases, ref_of = [], {}
     for c in base:
         c["options"] = {"nb_threads": 1, "stop_on_failure": False, "force_disabled": c["options"]["force_disabled"]}
